@@ -12,6 +12,10 @@ structure Cfg where
   ident : Bytes
   secret : Bytes
   H : Bytes → Bytes
+  /-- asyncio: the reconnect task is created by `__init__` and starts by itself; Twisted: `startService()` -/
+  autoStart : Bool := true
+  /-- delay before reconnecting after a lost connection, in ms (asyncio: none; Twisted: the retry policy) -/
+  lossDelay : Nat := 0
 
 /-- where the `reconnect()` task is -/
 inductive Task
@@ -64,7 +68,7 @@ deriving Repr
 
 inductive Ev
   | sub (ch : Bytes) | unsub (ch : Bytes) | pub (ch p : Bytes) | read | close
-  | accept | refuse | data (b : Bytes) | lost | advance (ms : Nat) | idle
+  | accept | refuse | data (b : Bytes) | lost | advance (ms : Nat) | idle | start
 deriving Repr
 
 def pack8 (x : Bytes) : Bytes := UInt8.ofNat x.length :: x
@@ -166,8 +170,10 @@ decreasing_by
   omega
 
 /-- the reconnect task gets to run for the first time -/
-def kick (s : State) : State × List Out :=
-  if s.task = .notStarted then ({ s with task := .connecting, attempts := s.attempts + 1 }, [.attempt]) else (s, [])
+def kick (cfg : Cfg) (s : State) : State × List Out :=
+  if cfg.autoStart ∧ s.task = .notStarted then
+    ({ s with task := .connecting, attempts := s.attempts + 1 }, [.attempt])
+  else (s, [])
 
 def usable (s : State) : Bool := match s.conn with | some c => c.ready | none => false
 
@@ -175,6 +181,10 @@ def usable (s : State) : Bool := match s.conn with | some c => c.ready | none =>
 def stepK (cfg : Cfg) (s : State) (pre : List Out) (e : Ev) : State × List Out :=
   match e with
   | .idle => (s, pre)
+  | .start =>
+    if s.task = .notStarted ∧ s.closeCalled = false then
+      ({ s with task := .connecting, attempts := s.attempts + 1 }, pre ++ [.attempt])
+    else (s, pre)
   | .sub ch =>
     if ch ∈ s.subs then (s, pre)
     else
@@ -236,11 +246,12 @@ def stepK (cfg : Cfg) (s : State) (pre : List Out) (e : Ev) : State × List Out 
       else if s.closing then
         ({ s with conn := some { c with gone := true, closing := true }, task := .done, closeWait := false },
           pre ++ (if s.closeWait then [.closeDone] else []))
-      else
+      else if cfg.lossDelay = 0 then
         ({ s with conn := none, task := .connecting, attempts := s.attempts + 1 }, pre ++ [.attempt])
+      else ({ s with conn := none, task := .sleeping (s.now + cfg.lossDelay) }, pre)
 
 def step (cfg : Cfg) (s0 : State) (e : Ev) : State × List Out :=
-  stepK cfg (kick s0).1 (kick s0).2 e
+  stepK cfg (kick cfg s0).1 (kick cfg s0).2 e
 
 def run (cfg : Cfg) (es : List Ev) : State × List Out :=
   es.foldl (fun acc e => let r := step cfg acc.1 e; (r.1, acc.2 ++ r.2)) ({}, [])
